@@ -172,7 +172,8 @@ def block(r, depth=0, plugins=(), directives=False):
         return r.choice(["| a | b |\n|---|:-:|\n| 1 | 2 |\n| *3* | `4` |\n", "a | b\n--|--:\n1 | 2\n", "| h |\n|---|\n| c | extra |\n",
                          "| a | b |\n|---|---|\n| \\| | 2 |\n"])
     if p == "footnotes":
-        return "[^" + r.choice(["1", "n", "Note"]) + "]: " + words(r) + r.choice(["\n", "\n    more " + words(r) + "\n", "\n\n    second para\n"])
+        return "[^" + r.choice(["1", "n", "Note"]) + "]: " + words(r) + r.choice(["", " *em*", " `code`", " http", " src/", " [l](/u)", " <b>"]) + \
+            r.choice(["\n", "\n   more " + words(r) + "\n", "\n\n   second para " + r.choice(["x", "*e*", "p"]) + "\n"])
     if p == "def_list":
         return words(r, 1, 2) + "\n: " + words(r) + r.choice(["\n", "\n: second\n", "\n\n  more\n"])
     if p == "math":
@@ -258,3 +259,36 @@ def interaction_doc(r, n=None):
         if r.random() < 0.5:
             out.append("")
     return "\n".join(out) + "\n"
+
+
+def showcase(r):
+    """a small document in which one plugin's constructs are actually used together (definition + reference etc.)"""
+    w = lambda: words(r, 1, 3)  # noqa
+    end = lambda: r.choice(["", " *em*", " `code`", " http", " src/", " [l](/u)", " <b>", " **s**", " p", " x>"])  # noqa
+    k = r.choice(["footnotes", "footnotes", "abbr", "table", "def_list", "task_lists", "math", "spoiler", "ruby", "formatting", "url", "refs"])
+    if k == "footnotes":
+        keys = r.sample(["1", "n", "Note", "k2"], r.randint(1, 3))
+        body = " ".join("%s[^%s]" % (w(), r.choice(keys + ["zz"])) for _ in range(r.randint(1, 4)))
+        defs = "".join("[^%s]: %s%s\n%s" % (kk, w(), end(), r.choice(["", "   cont %s%s\n" % (w(), end()), "\n   para two%s\n" % end()])) for kk in keys)
+        return body + "\n\n" + defs
+    if k == "abbr":
+        return "The HTML and W3C %s HTML\n\n*[HTML]: Hyper %s\n*[W3C]: World \"Wide\" <Web>\n" % (w(), w())
+    if k == "table":
+        cols = r.randint(1, 3)
+        row = lambda: "| " + " | ".join(inline(r, 1, ("table",)) for _ in range(cols)) + " |"  # noqa
+        return row() + "\n|" + "|".join(r.choice(["---", ":--", "--:", ":-:"]) for _ in range(cols)) + "|\n" + "".join(row() + "\n" for _ in range(r.randint(0, 3)))
+    if k == "def_list":
+        return "%s\n%s\n: %s%s\n: %s\n\n  more %s\n" % (w(), w(), w(), end(), w(), w())
+    if k == "task_lists":
+        return "- [ ] %s%s\n- [x] %s\n  - [X] nested\n\n- [ ] loose\n\n  para\n" % (w(), end(), w())
+    if k == "math":
+        return "$%s$ and $$\n%s\n$$\n\n$$\na<b&c\n$$\n" % (r.choice(["a+b", "x<y", "a&b"]), w())
+    if k == "spoiler":
+        return ">! %s%s\n>! more\n\ntext >!inline %s!< end\n" % (w(), end(), w())
+    if k == "ruby":
+        return "[漢字(かんじ)] and [漢(かん)字(じ)](/url) and [k(r)][ref]\n\n[ref]: /u\n"
+    if k == "formatting":
+        return "~~%s~~ ==%s== ^^%s^^ x^2^ H~2~O %s\n" % (w(), w(), w(), end())
+    if k == "url":
+        return "see https://example.com/a?b=c&d=e. and <https://x.y> %s http://q.r/s)\n" % w()
+    return "[a][r1] and [R1] and [b][nope] ![i][r1]\n\n[r1]: /u%s \"T\"\n" % r.choice(["", "?a=b&c", "%20x"])
